@@ -69,6 +69,22 @@ Theorem C03_eq_implies_same_get_hash : forall H b1 b2,
   fst (get_hash H (construct H b1)) = fst (get_hash H (construct H b2)).
 Proof. intros H b1 b2. rewrite !construct_key. apply get_hash_equal_keys. Qed.
 
+(* ==, cmp and the Hash feed are functions of the content only: whatever the memo state of the two operands
+   (hashed at birth, never hashed, hashed by an earlier get_hash, cloned in any of these states) and however
+   they were built, they are those of (name, labels in supplied order) ... *)
+Theorem C03_observations_ignore_memo_and_construction : forall H b1 b2 os1 os2,
+  key_cmp (m_key (built H b1 os1)) (m_key (built H b2 os2)) = key_cmp (logical_key b1) (logical_key b2)
+  /\ key_eq (m_key (built H b1 os1)) (m_key (built H b2 os2)) = key_eq (logical_key b1) (logical_key b2)
+  /\ hash_feed (m_key (built H b1 os1)) = hash_feed (logical_key b1).
+Proof. exact built_observations. Qed.
+
+(* ... so replacing both operands by differently built twins of the same content changes nothing *)
+Theorem C03_twins_compare_alike : forall H b1 b1' b2 b2' os1 os1' os2 os2',
+  logical_key b1 = logical_key b1' -> logical_key b2 = logical_key b2' ->
+  key_cmp (m_key (built H b1 os1)) (m_key (built H b2 os2)) = key_cmp (m_key (built H b1' os1')) (m_key (built H b2' os2'))
+  /\ key_eq (m_key (built H b1 os1)) (m_key (built H b2 os2)) = key_eq (m_key (built H b1' os1')) (m_key (built H b2' os2')).
+Proof. exact twins_observations. Qed.
+
 (* the model's sort is THE stable sort by label name *)
 Theorem C03_sort_is_the_stable_sort : forall ls,
   StronglySorted le_name (sort_by_name ls) /\
@@ -85,7 +101,9 @@ Theorem C03_spec_ok_on_model : forall c, spec_ok c (run_case c) = true.
 Proof. exact spec_ok_on_model. Qed.
 
 Theorem C03_spec_ok_sound : forall c o, spec_ok c o = true ->
-  exists ks e cm, o = OOk ks e cm true /\
+  exists ks e cm xe xc, o = OOk ks e cm true xe xc /\
+  length xe = n_extra /\ length xc = n_extra /\
+  Forall (fun m => m = e) xe /\ Forall (fun m => m = cm) xc /\
   let keys := map logical_key c in
   forall i j, (i < length c)%nat -> (j < length c)%nat ->
     let a := nth i keys dkey in
@@ -151,7 +169,7 @@ Example C03_nonvacuous_case :
              {| b_ctor := CStatic; b_name := [98]; b_first := [l1; l2; l3]; b_extra := []; b_ops := [PHash] |};
              {| b_ctor := CStatic; b_name := [98]; b_first := [l2; l1; l3]; b_extra := []; b_ops := [PClone] |} ] in
   match run_case c with
-  | OOk ks e cm _ => map o_hashed0 ks = [false; true; true; false]
+  | OOk ks e cm _ _ _ => map o_hashed0 ks = [false; true; true; false]
                      /\ e = [[true; true; false; false]; [true; true; false; false];
                              [false; false; true; false]; [false; false; false; true]]
   | OPanic => False
